@@ -119,7 +119,7 @@ TQuiescent == Step("quiescent") /\ UNCHANGED <<avars, scen, mvars, call, wires>>
    ELSE NoFlag
 TPanic == Step("panic") /\ UNCHANGED <<avars, scen, mvars, call, wires>> /\ Flag("C03/panic")
 THarness == Step("harness_error") /\ UNCHANGED <<avars, scen, mvars, call, wires>> /\ Flag("harness/script-error")
-Ignored == {"peer_part", "peer_bytes", "attach_call", "attach_pending", "released", "recv_pending", "send_pending", "send_dropped", "end", "expect_wire"}
+Ignored == {"observed", "peer_part", "peer_bytes", "attach_call", "attach_pending", "released", "recv_pending", "send_pending", "send_dropped", "end", "expect_wire"}
 TIgnore == l <= NRec /\ E.ev \in Ignored /\ l' = l + 1 /\ UNCHANGED <<avars, scen, mvars, call, wires>> /\ NoFlag
 
 TNext == TReset \/ TAttachRet \/ TWrote \/ TCut \/ TPipe \/ TWire \/ TSendCall \/ TRecvCall \/ TSendRet \/ TRecvRet \/ TRecvDropped
